@@ -18,11 +18,15 @@ Init == /\ InitEmpty
         /\ defA \in DefChoices
         /\ act = [op |-> "init"]
 
+\* depth bound as an action guard (see MC_Registry.DepthOK)
+DepthOK == TLCGet("level") < MaxDepth
+
 Next == \/ \E n \in Nodes : \E nb \in Cands(n) :
+              /\ DepthOK
               /\ SetBases(n, nb)
               /\ act' = [op |-> "SetBases", n |-> n, nb |-> nb]
         \/ \E n \in Nodes :
-              /\ WithGet
+              /\ WithGet /\ DepthOK
               /\ Get(n)
               /\ act' = [op |-> "Get", n |-> n, res |-> GetResult(n)]
 
@@ -38,15 +42,17 @@ Obs == [sro   |-> sro,
         invs  |-> [n \in Nodes |-> InvariantOwners(n)],
         isoe  |-> [n \in AllNodes |-> implied[n]]]
 
-Emit == PrintT(ToJson([lvl  |-> TLCGet("level"),
+\* Priming operators with RECURSIVE bodies is very slow in TLC: transitions are
+\* dumped with state keys only; the observation of each state is dumped,
+\* unprimed, once per distinct state by the invariant DumpObs; the harness
+\* joins the two on the key.
+Emit == PrintT(ToJson([kind |-> "edge", lvl  |-> TLCGet("level"),
                        from |-> Key(bases, deps, memo, defA),
                        act  |-> act',
-                       to   |-> Key(bases', deps', memo', defA'),
-                       obs  |-> [sro   |-> sro',
-                                 cons  |-> [n \in Nodes |-> HierConsistent(bases', n)],
-                                 owner |-> [n \in Nodes |-> GetResult(n)'],
-                                 invs  |-> [n \in Nodes |-> InvariantOwners(n)'],
-                                 isoe  |-> [n \in AllNodes |-> implied'[n]]]]))
+                       to   |-> Key(bases', deps', memo', defA')]))
+DumpObs == PrintT(ToJson([kind |-> "obs",
+                          key |-> Key(bases, deps, memo, defA),
+                          obs |-> Obs]))
 
 \* FreshEquiv as an action property (last sentence of C02)
 FreshAfterStep == [][sro' = FreshSro(bases')]_vars
